@@ -609,7 +609,11 @@ pub fn run_one(cfg: &BerCfg) -> BerObs {
             }
             None => (None, None, None),
         };
-        let h = cfg.h.to_sparse();
+        // the same code, now and then with its ones inserted in a shuffled order (a matrix is a
+        // set of positions; seeded change C12-r7-1 assumes each row lists its information columns
+        // before its staircase columns)
+        let order = keyed(cfg.script_seed, &[0x5481]);
+        let h = if order % 3 == 0 { cfg.h.to_sparse_shuffled(order | 1) } else { cfg.h.to_sparse() };
         let built = BerTestBuilder {
             h,
             decoder_implementation: factory,
